@@ -154,6 +154,20 @@ class C09:
         return Outcome(violation=viol, stats=stats, digest=res.digest, nontrivial=ticks >= 2, sample=sample,
                        shape=runner.h64(dataflow.shape_key(prog), [sorted(S[i]) for i in ids][:8]))
 
+    F3_SCENARIO = ("mode higher_order\nwindow 0 10\nwriter 1 shape=TS\nwscript 1 0|d=5\nwriter 2 shape=TS\nwscript 2 9|d=7\n"
+                   "writer 3 shape=TSBool\nwscript 3 1|d=true;;3|d=false;;5|d=true\nite 10 c=3 a=1 b=2\ncons 11 10\nnpass 20 10\ncons 21 20\n")
+
+    def demonstrate_known(self, k):
+        """F3 is outside the generated vocabulary (references crossing a nested boundary are kept out of the dataflow
+        programs): one fixed scenario re-demonstrates it on every run - a reference retargeted A -> (never-valid B) -> A is
+        read directly (consumer 11, ticks at the retarget back) and below a nested pass-through (consumer 21, does not)."""
+        if k["id"] != F3:
+            return False
+        res = runner.run(self.F3_SCENARIO, san=self.san)
+        t11 = [e["t"] for e in res.events if e["k"] == "C" and e["id"] == 11 and e["i"] is not None]
+        t21 = [e["t"] for e in res.events if e["k"] == "C" and e["id"] == 21 and e["i"] is not None]
+        return 5 in t11 and 5 not in t21 and 1 in t21
+
     def shrink(self, case):
         for q in dataflow.shrink_program(dataflow.normalise(case["prog"])):
             yield dict(prog=q, groups=case.get("groups", []))
